@@ -5,7 +5,7 @@ from autobean_refactor import models
 
 ID = 'C06'
 PROPERTY_FILE = 'Autobean/Properties/C06.lean'
-LEAN_TARGETS = ['Autobean.Properties.C06']
+LEAN_TARGETS = ['Autobean.Properties.C06', 'Autobean.Obligations.Schema']
 RULE = ('syntax-preserving edit histories (no raw-text/spacing/indent overrides, in-domain values, inserted raw nodes with a '
         'fitting indent) on normally parsed documents; after every operation the printed document is re-parsed by the '
         'real parser and compared structurally (classes, fields, nesting, order, token texts; block-comment attribution, '
